@@ -86,3 +86,15 @@ pub fn probe(depth: usize) {
     println!("depth={} bytes={} sent={} reply={:?} exit={:?} second-connection={:?}", depth, msg.len(), sent, r, exit, alive);
     server.stop();
 }
+
+/// `aqv wsmsg <text> ...`: what does the tracker answer to each of these messages, sent in turn on one connection?
+pub fn probe_msgs(texts: &[String]) {
+    let Some(mut server) = crate::net::Server::start("ws", &["swarm_workers=2".to_string()]) else { println!("START-FAILED"); return; };
+    let Some(mut c) = WsConn::connect(server.port) else { println!("CONNECT-FAILED"); server.stop(); return; };
+    for t in texts {
+        let sent = c.send_text(t, 15000);
+        let r = c.recv_text(Duration::from_secs(3));
+        println!("sent={} {} => {:?}", sent, t, r);
+    }
+    server.stop();
+}
